@@ -553,6 +553,13 @@ func runC13(c *core.Ctx) {
 		f := f
 		name := "Reweight(" + fmtF(f) + ")"
 		expect(name, call(name, func() error { return k.Reweight(f) }))
+		// the stores are public objects of their own (GetPositiveValueStore / GetNegativeValueStore) with the same rule
+		for side, st := range []store.Store{k.GetPositiveValueStore(), k.GetNegativeValueStore()} {
+			st := st
+			name := []string{"positive", "negative"}[side] + " store Reweight(" + fmtF(f) + ")"
+			c.Count("refused.store_level_reweight", 1)
+			expect(name, call(name, func() error { return st.Reweight(f) }))
+		}
 	}
 	// merges with a sketch of another mapping
 	for i := 0; i < 3; i++ {
